@@ -208,7 +208,7 @@ def extra_runs(ctx, lib):
     cached = getattr(ctx, "_flatpass_extra", None)
     if cached is not None:
         return cached
-    n = ctx.pick(30, 200)
+    n = ctx.pick(24, 200)
     texts = []
     while len(texts) < n:
         t = _extra_text(ctx.rng)
@@ -226,3 +226,46 @@ def extra_runs(ctx, lib):
                      "counter_before": r.get("counter_before"), "flat": r.get("flat"), "extra": True})
     ctx._flatpass_extra = (runs, {"generated": n, "accepted": len(runs), "refused": refused})
     return ctx._flatpass_extra
+
+
+# ---- semantic search on a mismatch: exact moments of the two snapshots (Sem.frun) -----------
+def semantic_search(ctx, lib, run, b, a, tag, nmax=2):
+    """Polar's snapshots before/after a pass as flat programs; E[m] for monomials m of degree
+    <= 2 over the source variables after n = 0..nmax iterations from the zero state, computed
+    by the reference semantics inside Coq.  -> (n, monomial text, before, after) of the first
+    difference, or None."""
+    from fractions import Fraction
+    src = None
+    if run.get("parsed") and "variables" in run["parsed"]:
+        src = [v for v in run["parsed"]["variables"] if not v.startswith("_")]
+    if not src:
+        src = sorted(v for v in dump_vars(b) if not v.startswith("_"))
+    src = src[:5]
+    monos = [[(v, 1)] for v in src] + [[(v, 2)] for v in src]
+    monos += [[(v, 1), (w, 1)] for i, v in enumerate(src) for w in src[i + 1:]]
+    try:
+        fb = f"{{| fp_init := {gas_term(b['init'])}; fp_body := {gas_term(b['body'])} |}}"
+        fa = f"{{| fp_init := {gas_term(a['init'])}; fp_body := {gas_term(a['body'])} |}}"
+    except core.NotModelled:
+        return None
+    mons = P.lst([P.lst([f'("{v}", {k}%nat)' for v, k in m]) for m in monos])
+    ns = list(range(nmax + 1))
+    text = (HEADER + f"Definition fb : flatprog := {fb}.\nDefinition fa : flatprog := {fa}.\n"
+            f"Definition monos : list mono := {mons}.\n"
+            "Eval vm_compute in map (fun n => map (fun m => (qpair (E (frun no_law fb n st0) (eval_mono m)), "
+            f"qpair (E (frun no_law fa n st0) (eval_mono m)))) monos) {P.lst([f'{n}%nat' for n in ns])}.\n")
+    ok, out = lib.coq_run_many(ctx, [(tag, text)], timeout=150)[tag]
+    if not ok:
+        return None
+    vals = [Fraction(int(m.group(1)), int(m.group(2)))
+            for m in re.finditer(r"\(?\(?(-?\d+)\)?%Z\s*,\s*(\d+)%positive", out)]
+    if len(vals) != 2 * len(monos) * len(ns):
+        return None
+    i = 0
+    for n in ns:
+        for m in monos:
+            vb, va = vals[i], vals[i + 1]
+            i += 2
+            if vb != va:
+                return n, "*".join(v if k == 1 else f"{v}**{k}" for v, k in m), str(vb), str(va)
+    return None
